@@ -785,6 +785,8 @@ def split_path_opts(rest):
 
 
 INCLUDED = []
+DEGRADED = []
+FORCE_DEGRADE = {}     # region name -> reason (set by the runner when the verifier rejects a construct inside that item)
 VAC_COUNTER = [0]
 FLAGS = set()
 
@@ -993,10 +995,38 @@ def expand_fragment(frag_name, text, out_lines, regions, log, vacuity=False):
             kind = 'sigonly' if 'sigonly' in opts else 'item'
             start_region(name, [p for p in opts.get('props', '').split(',') if p], kind)
             cur_region.path = path
-            if is_slice:
-                emit(emit_slice(spec, log, vacuity))
-            else:
-                emit(emit_item(spec, log, vacuity))
+            # graceful degradation: if THIS item cannot be spliced (lost anchor, loop/rewrite count mismatch: its shape
+            # changed) only its own obligations become undecided. A function is then emitted signature-only with its
+            # contract (so that the rest of the unit still sees what it saw before); a slice is left out.
+            try:
+                if name in FORCE_DEGRADE and 'sigonly' not in opts:
+                    raise ExtractError('the verifier rejects this item as it stands: %s' % FORCE_DEGRADE[name])
+                if is_slice:
+                    emit(emit_slice(spec, log, vacuity))
+                else:
+                    emit(emit_item(spec, log, vacuity))
+            except ExtractError as e:
+                degraded = None
+                if not is_slice and 'sigonly' not in opts:
+                    try:
+                        sf2, chain2 = locate(spec.path)
+                        if chain2[-1].kw == 'fn' and chain2[-1].body_open is not None:
+                            spec2 = ItemSpec(spec.path, dict(opts, sigonly=True), spec.lineno)
+                            if 'spec' in spec.sections:
+                                spec2.sections['spec'] = spec.sections['spec']
+                            if 'pre' in spec.sections:
+                                spec2.sections['pre'] = spec.sections['pre']
+                            # only rewrites that touch the signature can apply; keep those that still match in the header
+                            emit(emit_item(spec2, log, vacuity))
+                            degraded = 'signature-only'
+                    except ExtractError:
+                        degraded = None
+                if degraded is None:
+                    if not is_slice:
+                        raise
+                    degraded = 'left out'
+                cur_region.kind = 'degraded'
+                DEGRADED.append({'region': name, 'props': list(cur_region.props), 'reason': str(e), 'how': degraded})
             end_region()
         else:
             raise ExtractError('%s: unknown directive: %s' % (frag_name, d))
@@ -1016,7 +1046,7 @@ fn main() {}
 """
 
 
-def build_unit(unit, outdir, vacuity=False):
+def build_unit(unit, outdir, vacuity=False, force_degrade=None):
     """Returns dict(meta) and writes <outdir>/<unit>.rs"""
     upath = os.path.join(VX, 'units', unit + '.unit')
     frags = []
@@ -1038,6 +1068,9 @@ def build_unit(unit, outdir, vacuity=False):
     regions = []
     log = []
     del INCLUDED[:]
+    del DEGRADED[:]
+    FORCE_DEGRADE.clear()
+    FORCE_DEGRADE.update(force_degrade or {})
     FLAGS.clear()
     FLAGS.update(flags)
     for f in frags:
@@ -1054,6 +1087,7 @@ def build_unit(unit, outdir, vacuity=False):
         'regions': [{'name': r.name, 'props': r.props, 'kind': r.kind, 'frag': r.frag,
                      'first_line': r.first_line, 'last_line': r.last_line, 'path': r.path} for r in regions],
         'items': log,
+        'degraded': list(DEGRADED),
     }
     with open(os.path.join(outdir, unit + ('_vac' if vacuity else '') + '.meta.json'), 'w') as fh:
         json.dump(meta, fh, indent=1)
